@@ -9,6 +9,7 @@ INVARIANT StepAllowed
 INVARIANT EndAllowed
 INVARIANT ClockAgrees
 INVARIANT RowsAgree
+INVARIANT TableAgrees
 INVARIANT StepsHonoured
 INVARIANT EpochsAreStartPlusKDt
 INVARIANT NoOvershoot
